@@ -15,6 +15,7 @@ mod c16;
 mod c17;
 mod c19;
 mod c20;
+mod mc;
 
 fn main() {
     ex::install_panic_hook();
@@ -40,6 +41,8 @@ fn main() {
         "c17" => c17::run(rest),
         "c19" => c19::run(rest),
         "c20" => c20::run(rest),
+        "mc" => mc::run(rest),
+        "enc" => mc::run_enc(rest),
         other => {
             eprintln!("unknown command {other}");
             std::process::exit(2);
